@@ -72,12 +72,60 @@ Fixpoint inputs_ok (last : list str) (xs : list located) : bool :=
       inputs_ok (lc_path x) r
   end.
 
-Theorem xml_text_refines :
+(* The statement without the hypothesis inputs_fit,
+     forall xs st chunks, inputs_ok [] xs = true -> run_model xs x_empty = (st, chunks, Ok tt) ->
+       concat chunks = xml_decl ++ ser 0 (doc_events xs),
+   held while the writer raised AttributeError on a composite with more components than its map node has
+   sub-element nodes.  Since fix f38f280 the writer `break`s out of the loop instead: the run completes, but the
+   components beyond the node's sub-elements are NOT written, while sub_events lists every component (with id None
+   beyond the sub-ids).  So the statement is now FALSE (xml_text_refines_needs_fit, xml_text_refines_is_false).
+
+   The other `break` of the same fix (more elements in the segment than children of the segment node) does not
+   need a hypothesis: a run that completes has found exactly one child for every seq 1..len(children), so no child
+   has a larger seq, child_for is None beyond len(children) and seg_events lists nothing there either
+   (C08_lemmas.beyond_none).
+
+   inputs_fit (fits_node, comp_fits in C08_lemmas.v) asks only what is needed: every composite element that is
+   actually WRITTEN (its node is found, it is not a not-used element, it is not empty) has at most as many
+   components as its node has sub-element nodes. *)
+Definition inputs_fit (xs : list located) : bool := forallb (fun x => fits_node (lc_gi x) (lc_seg x)) xs.
+
+Theorem xml_text_refines_corrected :
   forall xs st chunks,
     inputs_ok [] xs = true ->
+    inputs_fit xs = true ->
     run_model xs x_empty = (st, chunks, Ok tt) ->
     concat chunks = xml_decl ++ ser 0 (doc_events xs).
-Proof. intros xs st chunks OK H. exact (model_refines xs st chunks OK H). Qed.
+Proof. intros xs st chunks OK FT H. exact (model_refines xs st chunks OK FT H). Qed.
+
+(* one segment AB in loop L1; its only element is a composite whose node has ONE sub-element, the data has TWO
+   components "x" and "y": the writer prints <subele id='AB01-1'>x</subele> only, the events also have
+   <subele id='None'>y</subele> *)
+Definition fit_cex_gi : seginfo :=
+  {| gi_id := Some (l "AB"); gi_first := true; gi_parent_path := Ok (l "/L1");
+     gi_children := [ {| ci_kind := CComp; ci_usage := None; ci_id := Some (l "AB01"); ci_seq := 1;
+                         ci_subids := [Some (l "AB01-1")] |} ] |}.
+Definition fit_cex_seg : seg := {| sid := Some (l "AB"); els := [[l "x"; l "y"]] |}.
+Definition fit_cex : list located :=
+  [ {| lc_gi := fit_cex_gi; lc_path := [l "L1"]; lc_d := XD; lc_seg := fit_cex_seg |} ].
+
+Lemma xml_text_refines_needs_fit :
+  inputs_ok [] fit_cex = true /\ inputs_fit fit_cex = false /\
+  exists st chunks, run_model fit_cex x_empty = (st, chunks, Ok tt) /\
+                    concat chunks <> xml_decl ++ ser 0 (doc_events fit_cex).
+Proof.
+  split; [vm_compute; reflexivity|]. split; [vm_compute; reflexivity|].
+  destruct (run_model fit_cex x_empty) as [[st chunks] r] eqn:E. exists st, chunks.
+  vm_compute in E. injection E as <- <- <-. split; [reflexivity|].
+  intros C. apply (f_equal (@length ascii)) in C. vm_compute in C. discriminate C.
+Qed.
+
+Lemma xml_text_refines_is_false :
+  ~ (forall xs st chunks, inputs_ok [] xs = true -> run_model xs x_empty = (st, chunks, Ok tt) ->
+       concat chunks = xml_decl ++ ser 0 (doc_events xs)).
+Proof.
+  intros H. destruct xml_text_refines_needs_fit as (A & _ & st & chunks & R & D). exact (D (H _ _ _ A R)).
+Qed.
 
 (* ---- what the events guarantee ---- *)
 Theorem doc_events_balanced : forall xs, balanced [] (doc_events xs) = true.
@@ -147,9 +195,12 @@ Qed.
 
 Print Assumptions escape_cont_roundtrip.
 Print Assumptions escape_attr_roundtrip.
-Print Assumptions xml_text_refines.
+Print Assumptions xml_text_refines_corrected.
+Print Assumptions xml_text_refines_needs_fit.
+Print Assumptions xml_text_refines_is_false.
 Print Assumptions doc_events_balanced.
 Print Assumptions seg_contexts_are_paths.
 Print Assumptions first_segment_opens_fresh_loop.
 Print Assumptions seg_tree_roundtrip_corrected.
+Print Assumptions seg_tree_roundtrip_counterexample.
 Print Assumptions seg_tree_roundtrip_is_false.
